@@ -1,5 +1,7 @@
 // C01/C02 correspondence harness: replays operation histories on tlx::btree_{set,multiset,map,multimap}
 // (counting allocator, lifetime-tracked element types, ASan/UBSan) next to the std ordered containers.
+// Operation names: I/Ih/I2/Ih2/Ib/IR (insert overloads), E1 EK EI, F X C L U R (+ suffix c: through a const reference),
+// T (iteration, all four iterator kinds, size/empty/max_size/key_comp/value_comp/get_allocator), CL AS CC SW/SWs CMP B CR.
 // Prints ONE line per case: one token per operation
 //     <result>/<allocs>.<frees>.<leaves>.<inner>.<size>      (/VERIFYFAIL:... if verify() throws)
 // then " final=..." (ledger verdict after destruction) and, if a result differs from the std container's,
@@ -180,6 +182,11 @@ static std::string final_status() {
 
 // ------------------------------------------------------------------ generic container operations
 // (the same templates drive the tlx container and the std container)
+template <class Y, class = void> struct has_insert2 : std::false_type {};
+template <class Y>
+struct has_insert2<Y, decltype(void(std::declval<Y&>().insert2(std::declval<const typename Y::key_type&>(),
+                                                                 std::declval<const typename Y::value_type&>().second)))> : std::true_type {};
+
 template <class KD, class X> struct Ops {
     typedef typename X::iterator It;
     typedef typename X::key_compare Cmp;
@@ -200,6 +207,14 @@ template <class KD, class X> struct Ops {
         if (it == x.end()) return r;
         return -1;
     }
+    typedef typename X::const_iterator CIt;
+    // the same through a const reference: const_iterator identity against a walk from the const begin()
+    static std::string cpos(const X& x, CIt it) {
+        long r = 0;
+        for (CIt y = x.begin(); y != x.end(); ++y, ++r) if (y == it) return std::to_string(r);
+        if (it == x.end()) return std::to_string(r);
+        return "!";
+    }
     static std::string pos(X& x, It it) {
         long r = rank_of(x, it);
         if (r < 0) return "!";
@@ -209,16 +224,62 @@ template <class KD, class X> struct Ops {
     static std::pair<It, bool> ins(X& x, const typename X::value_type& v, std::true_type) { It it = x.insert(v); return std::make_pair(it, true); }
     static std::pair<It, bool> ins(X& x, const typename X::value_type& v, std::false_type) { return x.insert(v); }
 
+    // canonical description of the iterator returned by any insert flavour
+    static std::string describe_insert(X& x, It it, bool inserted, int k, int d) {
+        long rk = rank_of(x, it);
+        if (rk < 0 || it == x.end()) return "I!baditer";
+        if (!equiv(x, KD::kof(*it), k)) return "I!wrongkey";
+        if (inserted && KD::dof(*it) != d) return "I!wrongdata";
+        // canonical position: start of the run of equivalent keys
+        It y = it; long c = 0;
+        while (y != x.begin()) { --y; if (equiv(x, KD::kof(*y), k)) ++c; else break; }
+        return std::string("I") + (inserted ? "1:" : "0:") + std::to_string(rk - c);
+    }
     static std::string insert(X& x, int k, int d) {
         std::pair<It, bool> r = ins(x, KD::mk(k, d), std::integral_constant<bool, KD::dup>());
-        long rk = rank_of(x, r.first);
-        if (rk < 0 || r.first == x.end()) return "I!baditer";
-        if (!equiv(x, KD::kof(*r.first), k)) return "I!wrongkey";
-        if (r.second && KD::dof(*r.first) != d) return "I!wrongdata";
-        // canonical position: start of the run of equivalent keys
-        It y = r.first; long c = 0;
-        while (y != x.begin()) { --y; if (equiv(x, KD::kof(*y), k)) ++c; else break; }
-        return std::string("I") + (r.second ? "1:" : "0:") + std::to_string(rk - c);
+        return describe_insert(x, r.first, r.second, k, d);
+    }
+    static It hint_of(X& x, int k, long j) {
+        switch (j % 3) { case 0: return x.begin(); case 1: return x.end(); default: return x.lower_bound(mkkey(k)); }
+    }
+    // insert(iterator hint, value): returns an iterator only; "inserted" is read off size()
+    static std::string insert_hint(X& x, int k, int d, long j) {
+        size_t before = x.size();
+        It it = x.insert(hint_of(x, k, j), KD::mk(k, d));
+        return describe_insert(x, it, x.size() == before + 1, k, d);
+    }
+    // insert2(key, data) / insert2(hint, key, data): tlx map facades only (elsewhere: the plain overloads)
+    static It first_of(It it) { return it; }
+    static It first_of(const std::pair<It, bool>& p) { return p.first; }
+    static std::string insert2(X& x, int k, int d) {
+        if constexpr (has_insert2<X>::value) {
+            auto v = KD::mk(k, d); size_t before = x.size();
+            auto r = x.insert2(v.first, v.second);
+            return describe_insert(x, first_of(r), x.size() == before + 1, k, d);
+        } else {
+            return insert(x, k, d);
+        }
+    }
+    static std::string insert_hint2(X& x, int k, int d, long j) {
+        if constexpr (has_insert2<X>::value) {
+            auto v = KD::mk(k, d); size_t before = x.size();
+            It it = x.insert2(hint_of(x, k, j), v.first, v.second);
+            return describe_insert(x, it, x.size() == before + 1, k, d);
+        } else {
+            return insert_hint(x, k, d, j);
+        }
+    }
+    // operator[] (unique maps): creates a default entry for an absent key, which is then assigned
+    static std::string insert_bracket(X& x, int k, int d) {
+        if constexpr (KD::ismap && !KD::dup) {
+            bool had = x.count(mkkey(k)) != 0;
+            if (!had) { x[mkkey(k)] = KD::mk(k, d).second; }
+            else { int seen = kval(x[mkkey(k)]); It f = x.find(mkkey(k)); if (f == x.end() || KD::dof(*f) != seen) return "I!bracket"; }
+            It it = x.find(mkkey(k));
+            return describe_insert(x, it, !had, k, d);
+        } else {
+            return insert(x, k, d);
+        }
     }
     // j-th element of the run of k whose data is d (sets: d == 0 for all)
     static bool locate(X& x, int k, int d, long j, It& out) {
@@ -241,6 +302,21 @@ template <class KD, class X> struct Ops {
         if (cfwd != fwd) return "T!const";
         if (fwd.size() != x.size()) return "T!size";
         if (x.empty() != (x.size() == 0)) return "T!empty";
+        if (cx.empty() != x.empty() || cx.size() != x.size()) return "T!constsize";
+        {   // const_reverse_iterator through the const reference
+            std::vector<std::pair<int, int>> crev;
+            for (typename X::const_reverse_iterator y = cx.rbegin(); y != cx.rend(); ++y) crev.push_back(std::make_pair(KD::kof(*y), KD::dof(*y)));
+            if (crev != rev) return "T!constreverse";
+        }
+        if (x.max_size() < x.size()) return "T!max_size";
+        { typename X::allocator_type al = cx.get_allocator(); (void)al; }
+        { typename X::value_compare vc = cx.value_comp(); (void)vc; typename X::key_compare kc = cx.key_comp();
+          for (size_t i = 0; i + 1 < fwd.size(); ++i) if (kc(mkkey(fwd[i + 1].first), mkkey(fwd[i].first))) return "T!key_comp";
+          if constexpr (KD::ismap) {   // value_compare is callable on pairs only (the set facades' value_compare names x.first)
+              CIt a = cx.begin();
+              if (a != cx.end()) { CIt b = a; ++b; for (; b != cx.end(); ++a, ++b) if (vc(*b, *a)) return "T!value_comp"; }
+          }
+        }
         // stepping back from end() must reach every element as well
         { size_t n = 0; It y = x.end(); while (y != x.begin()) { --y; ++n; if (n > fwd.size() + 1) break; } if (n != fwd.size()) return "T!backstep"; }
         // canonical: data sorted within runs of equivalent keys
@@ -284,20 +360,48 @@ static std::string do_op(std::unique_ptr<X>* c, const Op& o) {
     typedef Ops<KD, X> O;
     const std::string& n = o.name; const std::vector<long>& f = o.f;
     X& x = *c[f[0]];
+    const X& cx = x;
     if (n == "I") return O::insert(x, f[1], KD::ismap ? f[2] : 0);
+    if (n == "Ih") return O::insert_hint(x, f[1], KD::ismap ? f[2] : 0, f[3]);
+    if (n == "I2") return O::insert2(x, f[1], KD::ismap ? f[2] : 0);
+    if (n == "Ih2") return O::insert_hint2(x, f[1], KD::ismap ? f[2] : 0, f[3]);
+    if (n == "Ib") return O::insert_bracket(x, f[1], KD::ismap ? f[2] : 0);
+    if (n == "IR") {      // insert(first, last)
+        std::vector<typename X::value_type> v;
+        for (size_t i = 2; i + 1 < f.size(); i += 2) v.push_back(KD::mk(f[i], KD::ismap ? f[i + 1] : 0));
+        x.insert(v.begin(), v.end());
+        return "-";
+    }
+    if (n == "CR") {      // destroy the variable, re-create it with one of the range constructors
+        std::vector<typename X::value_type> v;
+        for (size_t i = 3; i + 1 < f.size(); i += 2) v.push_back(KD::mk(f[i], KD::ismap ? f[i + 1] : 0));
+        c[f[0]].reset();
+        switch (f[1] % 4) {
+        case 0: c[f[0]].reset(new X(v.begin(), v.end())); break;
+        case 1: c[f[0]].reset(new X(v.begin(), v.end(), typename X::allocator_type())); break;
+        case 2: c[f[0]].reset(new X(v.begin(), v.end(), typename X::key_compare())); break;
+        default: c[f[0]].reset(new X(v.begin(), v.end(), typename X::key_compare(), typename X::allocator_type())); break;
+        }
+        return "-";
+    }
+    if (n == "Fc") return "F" + O::cpos(cx, cx.find(O::mkkey(f[1])));
+    if (n == "Lc") return "L" + O::cpos(cx, cx.lower_bound(O::mkkey(f[1])));
+    if (n == "Uc") return "U" + O::cpos(cx, cx.upper_bound(O::mkkey(f[1])));
+    if (n == "Rc") { auto p = cx.equal_range(O::mkkey(f[1])); return "R" + O::cpos(cx, p.first) + "-" + O::cpos(cx, p.second); }
+    if (n == "SWs") { using std::swap; swap(x, *c[f[1]]); return "-"; }
     if (n == "E1") return api_erase_one(x, O::mkkey(f[1]), 0) ? "E1" : "E0";
     if (n == "EK") return "K" + std::to_string(x.erase(O::mkkey(f[1])));
     if (n == "EI") { typename X::iterator it; if (!O::locate(x, f[1], KD::ismap ? f[2] : 0, f[3], it)) return "D-"; x.erase(it); return "D1"; }
     if (n == "F") return "F" + O::pos(x, x.find(O::mkkey(f[1])));
     if (n == "X") return api_exists(x, O::mkkey(f[1]), 0) ? "X1" : "X0";
-    if (n == "C") return "C" + std::to_string(x.count(O::mkkey(f[1])));
+    if (n == "C") return "C" + std::to_string(cx.count(O::mkkey(f[1])));
     if (n == "L") return "L" + O::pos(x, x.lower_bound(O::mkkey(f[1])));
     if (n == "U") return "U" + O::pos(x, x.upper_bound(O::mkkey(f[1])));
     if (n == "R") { auto p = x.equal_range(O::mkkey(f[1])); return "R" + O::pos(x, p.first) + "-" + O::pos(x, p.second); }
     if (n == "T") return O::iterate(x);
     if (n == "CL") { x.clear(); return "-"; }
     if (n == "AS") { x = *c[f[1]]; return "-"; }
-    if (n == "CC") { if (f[0] == f[1]) return "?"; c[f[0]].reset(); c[f[0]].reset(new X(*c[f[1]])); return "-"; }
+    if (n == "CC") { if (f[0] == f[1]) return "?"; c[f[0]].reset(); const X& src = *c[f[1]]; c[f[0]].reset(new X(src)); return "-"; }
     if (n == "SW") { x.swap(*c[f[1]]); return "-"; }
     if (n == "CMP") return O::compare(x, *c[f[1]]);
     if (n == "B") {
@@ -311,7 +415,7 @@ static std::string do_op(std::unique_ptr<X>* c, const Op& o) {
 }
 
 static bool mutating(const std::string& n) {
-    return n == "I" || n == "E1" || n == "EK" || n == "EI" || n == "CL" || n == "AS" || n == "CC" || n == "SW" || n == "B";
+    return n == "I" || n == "Ih" || n == "I2" || n == "Ih2" || n == "Ib" || n == "IR" || n == "CR" || n == "SWs" || n == "E1" || n == "EK" || n == "EI" || n == "CL" || n == "AS" || n == "CC" || n == "SW" || n == "B";
 }
 
 template <class KC>
@@ -325,7 +429,11 @@ static std::string run_case(const std::vector<Op>& ops, std::string* dumps) {
     {
         std::unique_ptr<C> c[3];
         std::unique_ptr<S> s[3];
-        for (int i = 0; i < 3; ++i) { c[i].reset(new C()); s[i].reset(new S()); }
+        // default, allocator-extended and comparator+allocator constructors
+        c[0].reset(new C()); s[0].reset(new S());
+        c[1].reset(new C(typename C::allocator_type())); s[1].reset(new S(typename S::allocator_type()));
+        c[2].reset(new C(typename C::key_compare(), typename C::allocator_type()));
+        s[2].reset(new S(typename S::key_compare(), typename S::allocator_type()));
         auto& A = verif::AllocLedger::get();
         for (size_t k = 0; k < ops.size(); ++k) {
             const Op& o = ops[k];
@@ -354,7 +462,7 @@ static std::string run_case(const std::vector<Op>& ops, std::string* dumps) {
             out << ri;
             C& x = *c[o.f[0]];
             bool vok = true; std::string vmsg;
-            try { x.verify(); if (o.f.size() > 1 && (o.name == "SW" || o.name == "AS" || o.name == "CC")) c[o.f[1]]->verify(); }
+            try { x.verify(); if (o.f.size() > 1 && (o.name == "SW" || o.name == "SWs" || o.name == "AS" || o.name == "CC")) c[o.f[1]]->verify(); }
             catch (const std::exception& e) { vok = false; vmsg = e.what(); }
             if (!vok) {
                 std::string m; for (char ch : vmsg) { if (ch == ' ' || ch == '\n') m += '_'; else m += ch; }
